@@ -49,7 +49,7 @@ def model_of(d):
     """Extract the M1 model of a real diagram from its public attributes."""
     boxes = []
     for b in d.boxes:
-        boxes.append((repr(b), str(b.name), atoms_of(b.dom), atoms_of(b.cod),
+        boxes.append((repr(b), str(getattr(b, 'name', 'diagram')), atoms_of(b.dom), atoms_of(b.cod),
                       box_kind(b), bool(getattr(b, "is_dagger", False))))
     return (atoms_of(d.dom), tuple(boxes), tuple(d.offsets))
 
